@@ -11,6 +11,32 @@ CHECKS = {
             "(exhaustive on the property's domain), and recorded library / dconv events are validated by CalendarTrace.tla",
             "trusts TLC, the Calendar/Greg modules (two formulations + anchors, self-tested against CPython datetime), gcc; "
             "%w on Sundays accepts 00 and 07; Lilian day 0 = 1582-10-15 as documented; bizda only as a source", "5 C01"),
+    "C02": ("model_checking", "TLA+ Calendar chain + SuccProps action property (TLC), round trips / representation independence replayed on all days, tool traces validated by CalendarTrace",
+            "TLC checks the whole day chain incl. the action property that consecutive days map to consecutive values in every calendar; "
+            "the real library is driven over every day for all ordered calendar pairs, successors, Hijri inside its table and "
+            "specifier-vs-held-representation equality, triples and the specifier order matrix on the boundary windows; "
+            "dadd/dround/dseq/dconv outputs are validated by CalendarTrace.tla",
+            "trusts TLC + Calendar/Greg/HijriTab (frozen copy of data/ummulqura.tab); no conversion to bizda exists (stub), so bizda is a source only; "
+            "%dB only for bizda values; known finding: day-count tail", "5 C02"),
+    "C03": ("model_checking", "TLA+ DateArith (DayExact) model-checked, behaviours replayed through dadd; chain replay of day/week adds on all days; CalendarTrace on dadd runs",
+            "DateArith.tla (day/week steps are index arithmetic) is model-checked and every reachable behaviour replayed through the dadd tool; "
+            "dt_dadd_d/dt_dadd_w are compared with the TLC chain for every day x 9 notations x 112 counts (+ large and seeded counts, "
+            "a-then-b and n-then-minus-n laws); dadd runs in five notations are validated by CalendarTrace.tla",
+            "counts are enumerated (not all integers): small set on every day, large ones on a stride; results outside 1601..4095 not judged", "5 C03"),
+    "C04": ("model_checking", "TLA+ DateArith (lazy clamp: Compose/KeepDay/Valid, eager-clamp negative control) model-checked; all behaviours through dadd; chain replay of month/year adds on all days",
+            "the lazy-clamp design is model-checked (composition, keep-day, validity; the eager variant is refuted as a control); every "
+            "reachable behaviour (start, <=2|3 steps) is replayed through dadd; dt_dadd_m/dt_dadd_y incl. two-step composition are "
+            "compared with MonthAdd/ClampDay on the chain for every day x k in -30..30 months, -12..12 years x {ymd,ymcw,bizda,ywd,yd}",
+            "week-based clamps: ymcw = last existing count, ywd = last ISO week, yd = last day of year; results outside the range not judged", "5 C04"),
+    "C07": ("model_checking", "TLA+ Biz (counting = closed form, Inverse, Additive) model-checked, table replayed through dadd; chain (bcum) replay of business-day adds/diffs; CalendarTrace on tool runs",
+            "Biz.tla is model-checked (definition by counting, closed form, inverse law) and its table replayed through dadd; "
+            "dt_dadd_b and business-day ddiff are compared with the chain's cumulative business-day count for (every 3rd|every) day x "
+            "notation x |k|<=40|120 and |k|<=700|2600 on a stride; month totals; dconv/dadd runs validated by CalendarTrace.tla",
+            "oracle = chain bcum; known finding: ddiff from weekend start backwards (pinned by the suite)", "5 C07"),
+    "C08": ("model_checking", "TLA+ Order (total order laws, ymcw order, sort characterisation) model-checked; dt_dcmp/in_range replayed against chain order; dtest/dsort traces validated by OrderTrace",
+            "Order.tla is model-checked at small scope; dt_dcmp and dt_d_in_range_p are compared with the chain index order for day pairs "
+            "and triples in all 9 notations; dtest exit codes and dsort outputs (permutation + order, -r) are validated by OrderTrace.tla",
+            "pairs/triples are windows + seeded far pairs (not all 10^11); same notation on both sides; sort ties in any order", "5 C08"),
 }
 NOT_APPLICABLE = []
 
